@@ -228,6 +228,20 @@ CLAIMED = {
             'stand-ins; inside the loop harness get_token hands out distinct values (the generator is L10.3). Bounds: 8 ticks, 2 '
             'addresses, action alphabet and positions as listed in the evidence.',
             'DESIGN.md §6 C10'),
+    'C11': ('The real TwistedServer.datagramReceived is executed on arbitrary bytes of every length up to the receive size (short '
+            'symbolic prefixes, 20 symbolic header bytes + opaque rest, fully opaque): it never raises, never replies, and for a '
+            'block-listed address neither queues nor wakes the loop. The unmodified server loop (driver of C10) runs with an '
+            'established honest client B while address A - unknown, mid-handshake or connected - injects a hostile datagram (forged '
+            'header of any type with valid CRC and arbitrary body bytes, a hello carrying arbitrary message bytes, an oversized datagram '
+            'of any non-hello type, a truncated copy of a genuine datagram): no exception leaves the loop, the handler lifecycle stays '
+            'intact, B\'s message is still delivered, B\'s key/status/token/fragments are untouched, and an unconnected address never '
+            'receives more bytes than it sent. Anti-amplification with a symbolic MTU and attacker-chosen padding: a server hello is '
+            'queued only for a hello of the full padded size, it is strictly smaller than that hello, and a connection that has not '
+            'completed the handshake emits nothing else.',
+            'Trusted: as C10 (single-threaded driver, inert stand-ins, ideal crypto). Bounded decode work is C14. Bounds: one (thorough two) '
+            'hostile datagram(s) per run with <= 5 arbitrary body bytes / 3 arbitrary hello-message bytes; 9 ticks. Outside: OS socket '
+            'buffers, memory growth of the input queue under flooding, thread liveness as such.',
+            'DESIGN.md §6 C11'),
 }
 
 NOT_YET = 'check not built yet in this round (planned: see DESIGN.md §6); not claimed'
